@@ -4,28 +4,29 @@ from __future__ import annotations
 import ast
 import itertools
 import posixpath
+from urllib.parse import unquote_to_bytes
 
-from sa.astx import call_attr, call_name, src, walk_local
 from sa.selftest import Mutant, Silent
-from sa.source import AnalysisError, methods
-from sa.props._lib_f import (InterpError, ModelRaised, call_repo, call_sites, enclosing_try_handlers, from_here, handler_names, interpret, named_calls,
-                             param_names)
+from sa.source import AnalysisError
+from sa.props._lib_f import InterpError, ModelRaised, NullLogger, RepoObject, World
 
 PROPERTY = "C26"
 FP = "python/filepath.py"
 ST = "web/static.py"
 SV = "web/server.py"
 RS = "web/resource.py"
-TECHNIQUE = "finite-domain interpretation of the containment checks + taint to path sinks"
+TECHNIQUE = "finite-domain interpretation of FilePath / static.File against a containment oracle"
 EXPLANATION = (
-    "Decides: (a) FilePath.child and FilePath.preauthChild are interpreted with the whitelisted evaluator (os.path modelled by posixpath, no execution of "
-    "twisted) in str and bytes mode for every name built from up to three segments of a hostile alphabet ('', '.', '..', a, root, root-evil, rootx, ..a) plus absolute, NUL, "
-    "backslash and doubled-separator forms, against parents '/t/root' and '/': the result must be InsecurePath, the parent itself, or a direct child "
-    "(child) / a path inside the subtree with a separator-aware boundary (preauthChild; F26, fixed), and ordinary names must still be accepted; "
-    "descendant is interpreted on segment lists over the same alphabet (its result must be InsecurePath or inside the subtree); the str/bytes coercions used on the way (_asFilesystemText/_asFilesystemBytes/_coerceToFilesystemEncoding/_getPathAsSameTypeAs) are the repository's own functions, interpreted with the codecs delegated to CPython, and mixed-mode parents whose name is not valid UTF-8 are part of the grid (containment is compared byte-wise, so a lossy coercion shows); (b) static.File.getChild is interpreted as a whole over the hostile segments against a model file system that has a same-prefix sibling file and directory next to the root with ignoredExts=('.bak',): every resource returned stays inside the root; taint: in static.File.getChild the request segment reaches a path constructor only "
-    "through self.child() inside a try that turns InsecurePath into childNotFound; File/Resource do not override child; a segment that is not UTF-8 "
-    "gives childNotFound; (c) server.Request.process splits the path at '/' before unquoting each piece and resource.getChildForRequest hands each "
-    "piece on whole, so an encoded separator stays inside one segment. Not decided: symbolic links (excluded by the statement), Windows path rules."
+    "FilePath, static.File, server.Request.process (up to the point where postpath is set) and resource.getChildForRequest are instantiated as model objects whose "
+    "methods are the repository's own functions, interpreted over the AST (os.path modelled by posixpath, the codecs delegated to CPython, a small model file system "
+    "stands for the disk; nothing of twisted is imported or run), so the verdict does not depend on how the code is spelled or which private helpers it uses: (a) "
+    "child / preauthChild / descendant on every name built from up to three segments of a hostile alphabet ('', '.', '..', a, root, root-evil, rootx, ..a) plus absolute, "
+    "NUL, backslash, doubled-separator and '..'-normalising forms, str and bytes, including parents whose name is not valid UTF-8 in mixed mode: the result is "
+    "InsecurePath, the parent itself, a direct child (child) / a path inside the subtree (preauthChild, descendant; F26 fixed), compared byte-wise so a lossy "
+    "str/bytes coercion shows, and ordinary names are accepted; (b) static.File.getChild as a whole over hostile segments against a file system with a same-prefix "
+    "sibling file and directory and ignoredExts=('.bak',): every resource returned lies inside the root, refusals are childNotFound, nothing raises; (c) "
+    "Request.process turns '/a%2Fb/%2e%2e/c' into the segments [a/b, .., c] (split before unquote) and getChildForRequest hands each segment on whole and in "
+    "order. Not decided: symbolic links (excluded by the statement), Windows path rules."
 )
 ASSUMPTIONS = ["posixpath.normpath/join/abspath model os.path on the analysed platform (POSIX)",
                "File.indexNames / ignoredExts are administrator configuration, not request data"]
@@ -40,106 +41,20 @@ SPECIAL = ["/etc/passwd", "//etc", "a\x00b", "..\\x", "\\", "a//b", "a/./b", "..
 
 def _names():
     out = []
-    for n in (1, 2, 3):
-        for combo in itertools.product(SEGS, repeat=n):
+    for n, alphabet in ((1, SEGS), (2, SEGS), (3, ["", ".", "..", "a", "root-evil"])):
+        for combo in itertools.product(alphabet, repeat=n):
             out.append("/".join(combo))
     return sorted(set(out + SPECIAL))
 
 
-class InsecurePath(Exception):
-    """stands for twisted.python.filepath.InsecurePath when a modelled method raises it"""
 
-
-REPO_HELPERS = ("_asFilesystemBytes", "_asFilesystemText", "_coerceToFilesystemEncoding")
-REPO_METHODS = ("child", "preauthChild", "_getPathAsSameTypeAs", "_asBytesPath", "_asTextPath", "siblingExtensionSearch", "childSearchPreauth", "siblingExtension")
-
-# model file system for the static.File evaluation: a web root, a same-prefix sibling *file* and *directory* next to it, and ordinary content
+# model file system: a web root, a same-prefix sibling *file* and *directory* next to it, ordinary content
 FS = {"/": "dir", "/t": "dir", "/t/www": "dir", "/t/www.bak": "file", "/t/www-evil": "dir", "/t/www-evil/x": "file", "/t/secret": "file",
       "/t/www/a": "file", "/t/www/page.bak": "file", "/t/www/sub": "dir", "/t/www/sub/b": "file", "/t/root": "dir"}
 
 
 def _b(p):
     return p.encode("utf-8", "surrogateescape") if isinstance(p, str) else p
-
-
-class _FP:
-    """Model of a FilePath: holds the path; every path-computing method (child, preauthChild, the str/bytes coercions, the extension search) is evaluated by
-    interpreting the repository's own function with os.path modelled by posixpath and the codecs delegated to CPython (nothing of twisted is executed)."""
-    _sa_model = True
-
-    def __init__(self, path, repo):
-        self.path = path
-        self.repo = repo
-
-    # -- evaluation of repository code
-    def _funcs(self):
-        if getattr(self, "_fcache", None) is not None:
-            return self._fcache
-        f = self._build_funcs()
-        self._fcache = f
-        return f
-
-    def _build_funcs(self):
-        f = {"platform.isWindows": lambda: False, "self.clonePath": self.clonePath, "sys.getfilesystemencoding": lambda: "utf-8",
-             "exists": lambda p: posixpath.normpath(_text(p)) in FS, "listdir": lambda p: sorted(posixpath.basename(k) for k in FS if posixpath.dirname(k) == posixpath.normpath(_text(p)) and k != "/"),
-             "self.exists": self.exists, "self.isdir": self.isdir, "self.isfile": self.isfile}
-        for nm in REPO_HELPERS:
-            f[nm] = self._helper(nm)
-        for nm in REPO_METHODS:
-            if nm in self.repo:
-                f["self." + nm] = self._method(nm)
-        return f
-
-    def _helper(self, nm):
-        return lambda *a, **k: call_repo(self.repo[nm], a, k, funcs=self._funcs())
-
-    def _method(self, nm):
-        return lambda *a, **k: call_repo(self.repo[nm], a, k, selfobj=self, funcs=self._funcs())
-
-    def _call(self, meth, *args):
-        try:
-            return call_repo(self.repo[meth], args, selfobj=self, funcs=self._funcs())
-        except ModelRaised as e:
-            if e.name == "InsecurePath":
-                raise InsecurePath(*args)
-            raise RuntimeError(f"{meth} raises {e.name}")
-
-    def child(self, name):
-        return self._call("child", name)
-
-    def preauthChild(self, name):
-        return self._call("preauthChild", name)
-
-    def siblingExtensionSearch(self, *exts):
-        return self._call("siblingExtensionSearch", *exts)
-
-    def childSearchPreauth(self, *names):
-        return self._call("childSearchPreauth", *names)
-
-    def clonePath(self, p, *a):
-        return type(self)(p, self.repo) if type(self) is _FP else _FP(p, self.repo)
-
-    # -- model file system
-    def _norm(self):
-        return posixpath.normpath(_text(self.path))
-
-    def exists(self):
-        return self._norm() in FS
-
-    def isdir(self):
-        return FS.get(self._norm()) == "dir"
-
-    def isfile(self):
-        return FS.get(self._norm()) == "file"
-
-    def restat(self, *a, **k):
-        return None
-
-    def splitext(self):
-        return posixpath.splitext(self.path)
-
-    def basename(self):
-        return posixpath.basename(self.path)
 
 
 def _text(p):
@@ -159,59 +74,77 @@ def _inside(root, p, direct):
     return (b"/" not in rest) if direct else True
 
 
-def _methods(ctx):
-    mod = ctx.mod(FP)
-    repo = {}
-    for nm in REPO_HELPERS:
-        repo[nm] = ctx.func(FP, nm)
-    for nm in REPO_METHODS:
-        repo[nm] = ctx.func(FP, "FilePath." + nm)
-    return repo
+def _kind(obj):
+    return FS.get(posixpath.normpath(_text(obj.path)))
 
 
-# (parent path, type of the names tried against it, subset of names?)  - the last two are the mixed-mode cases with a parent name that is not valid UTF-8
+def _fp_world(ctx):
+    for fn in ("FilePath.child", "FilePath.preauthChild", "AbstractFilePath.descendant", "FilePath._getPathAsSameTypeAs", "_asFilesystemText", "_asFilesystemBytes",
+               "_coerceToFilesystemEncoding"):
+        ctx.func(FP, fn)
+    ext = {"platform.isWindows": lambda: False, "sys.getfilesystemencoding": lambda: "utf-8",
+           "exists": lambda p: posixpath.normpath(_text(p)) in FS,
+           "listdir": lambda p: sorted((posixpath.basename(k) if isinstance(p, str) else posixpath.basename(k).encode()) for k in FS
+                                       if posixpath.dirname(k) == posixpath.normpath(_text(p)) and k != "/"),
+           "comparable": lambda c: c, "implementer": lambda *a: (lambda c: c), "Logger": lambda *a, **k: NullLogger()}
+    w = World(ctx.mod(FP), externals=ext)
+    # the methods that ask the operating system are answered from the model file system
+    w.override("exists", lambda o: _kind(o) is not None)
+    w.override("isdir", lambda o: _kind(o) == "dir")
+    w.override("isfile", lambda o: _kind(o) == "file")
+    w.override("restat", lambda o, *a, **k: None)
+    w.override("changed", lambda o: None)
+    return w
+
+
+def _path_of(v):
+    return v.path if isinstance(v, RepoObject) else None
+
+
+def _try(f, *a):
+    try:
+        return f(*a), None
+    except ModelRaised as e:
+        return None, e.name
+
+
+# (parent path, type of the names tried against it, subset of names?)  - the last ones are the mixed-mode cases with a parent name that is not valid UTF-8
 PARENTS = [("/t/root", str, False), ("/t/root", bytes, False), ("/", str, True), ("/", bytes, True), (b"/t/root", str, True), (b"/t/root", bytes, True),
            (b"/t/r\xffot", str, True), (b"/t/r\xffot", bytes, True), ("/t/r\udcffot", bytes, True)]
 
 
 def _semantics(ctx, meth, direct, rule):
-    ms = _methods(ctx)
+    w = _fp_world(ctx)
     q = "twisted.python.filepath.FilePath." + meth
     bad, accepted, n = [], 0, 0
     names = _names()
-    short_names = [x for x in names if x.count("/") <= 1][:160]
-    try:
-        for root, mode, subset in PARENTS:
-            fp = _FP(root, ms)
-            for name0 in (short_names if subset else names):
-                name = name0.encode("utf-8") if mode is bytes else name0
-                n += 1
-                try:
-                    val = getattr(fp, meth)(name)
-                except InsecurePath:
-                    continue
-                except RuntimeError as e:
-                    bad.append((root, name, str(e)))
-                    continue
-                if not isinstance(val, _FP) or not isinstance(val.path, mode):
-                    bad.append((root, name, f"returns {getattr(val, 'path', val)!r}"))
-                elif not _inside(root, val.path, direct):
-                    bad.append((root, name, f"returns {val.path!r}"))
-                else:
-                    accepted += 1
-            # ordinary names are accepted and land where expected
-            rb = _b(root).rstrip(b"/")
-            for name0, want in (("a", rb + b"/a"), ("..a", rb + b"/..a")) + ((("a/root", rb + b"/a/root"),) if not direct else ()):
-                name = name0.encode("utf-8") if mode is bytes else name0
-                try:
-                    val = getattr(fp, meth)(name)
-                    got = _b(val.path) if isinstance(val, _FP) else repr(val)
-                except (InsecurePath, RuntimeError) as e:
-                    got = f"raises {type(e).__name__}"
-                if got != want:
-                    bad.append((root, name, f"gives {got!r} instead of {want!r}"))
-    except InterpError as e:
-        raise AnalysisError(f"C26: FilePath.{meth} (or a coercion helper it uses) has a construct the evaluator cannot interpret: {e}")
+    short_names = [x for x in names if x.count("/") <= 1][:110]
+    for root, mode, subset in PARENTS:
+        fp = w.new("FilePath", root)
+        if _b(fp.path) != _b(root):
+            bad.append((root, "<construction>", f"FilePath({root!r}).path is {fp.path!r}"))
+            continue
+        for name0 in (short_names if subset else names):
+            name = name0.encode("utf-8") if mode is bytes else name0
+            n += 1
+            val, exc = _try(getattr(fp, meth), name)
+            if exc == "InsecurePath":
+                continue
+            if exc is not None:
+                bad.append((root, name, f"raises {exc}"))
+            elif _path_of(val) is None or not isinstance(val.path, mode):
+                bad.append((root, name, f"returns {getattr(val, 'path', val)!r}"))
+            elif not _inside(root, val.path, direct):
+                bad.append((root, name, f"returns {val.path!r}"))
+            else:
+                accepted += 1
+        rb = _b(root).rstrip(b"/")
+        for name0, want in (("a", rb + b"/a"), ("..a", rb + b"/..a")) + ((("a/root", rb + b"/a/root"),) if not direct else ()):
+            name = name0.encode("utf-8") if mode is bytes else name0
+            val, exc = _try(getattr(fp, meth), name)
+            got = _b(val.path) if _path_of(val) is not None else f"raises {exc}"
+            if got != want:
+                bad.append((root, name, f"gives {got!r} instead of {want!r}"))
     msg = ""
     if bad:
         r, nm, what = bad[0]
@@ -221,53 +154,27 @@ def _semantics(ctx, meth, direct, rule):
     ctx.extra.setdefault("finite_cases", {})[meth] = n
 
 
-def check(ctx):
-    with ctx.section("child"):
-        _semantics(ctx, "child", True, "containment/child-semantics")
-    with ctx.section("preauthChild"):
-        _semantics(ctx, "preauthChild", False, "containment/preauth-semantics")
-    with ctx.section("descendant"):
-        _descendant(ctx)
-    with ctx.section("static"):
-        _static(ctx)
-    with ctx.section("static-evaluated"):
-        _static_evaluated(ctx)
-    with ctx.section("server"):
-        _server(ctx)
-
-
 def _descendant(ctx):
-    ms = _methods(ctx)
-    own = methods(ctx.cls(FP, "FilePath")).get("descendant")
-    stub = own is None or all(isinstance(s_, (ast.Expr, ast.Pass)) for s_ in own.body)   # TYPE_CHECKING signature stubs
-    f = ctx.func(FP, "AbstractFilePath.descendant") if stub else own
-    q = "twisted.python.filepath." + ("AbstractFilePath" if stub else "FilePath") + ".descendant"
-    seg = param_names(f)[1]
+    w = _fp_world(ctx)
+    q = "twisted.python.filepath.FilePath.descendant"
     singles = sorted(set(SEGS + ["a/b", "../root-evil", "/etc", "x/../..", "../", "./..", "..//", "a/../../b"]))
     cases = [[a_] for a_ in singles] + [[a_, b_] for a_ in singles for b_ in singles] + [["a", "b", ".."], ["a", "..", ".."], ["a", "b", "c"]]
     bad, n = [], 0
-    try:
-        for root, mode in [(r_, m_) for r_ in ROOTS for m_ in (str, bytes)] + [(b"/t/r\xffot", str)]:
-            if True:
-                for segs0 in cases if isinstance(root, str) else cases[:60]:
-                    segs = [x.encode("utf-8") if mode is bytes else x for x in segs0]
-                    n += 1
-                    fp = _FP(root, ms)
-                    kind, val = interpret(f, {seg: segs, "self": fp}, funcs=fp._funcs())
-                    if kind == "raise":
-                        if val != "InsecurePath":
-                            bad.append((root, segs, f"raises {val}"))
-                        continue
-                    if not isinstance(val, _FP) or not _inside(root, val.path, False):
-                        bad.append((root, segs, f"returns {getattr(val, 'path', val)!r}"))
-                for segs0, want in ((["a", "b"], _b(root).rstrip(b"/") + b"/a/b"), ([], _b(root))):
-                    segs = [x.encode("utf-8") if mode is bytes else x for x in segs0]
-                    fp = _FP(root, ms)
-                    kind, val = interpret(f, {seg: segs, "self": fp}, funcs=fp._funcs())
-                    if kind != "return" or not isinstance(val, _FP) or _b(val.path) != want:
-                        bad.append((root, segs, f"gives {kind} {getattr(val, 'path', val)!r} instead of {want!r}"))
-    except InterpError as e:
-        raise AnalysisError(f"C26: descendant() uses a construct the evaluator cannot interpret: {e}")
+    for root, mode in [(r_, m_) for r_ in ROOTS for m_ in (str, bytes)] + [(b"/t/r\xffot", str)]:
+        for segs0 in cases if (isinstance(root, str) and root != "/") else cases[:60]:
+            segs = [x.encode("utf-8") if mode is bytes else x for x in segs0]
+            n += 1
+            fp = w.new("FilePath", root)
+            val, exc = _try(fp.descendant, segs)
+            if exc == "InsecurePath":
+                continue
+            if exc is not None or _path_of(val) is None or not _inside(root, val.path, False):
+                bad.append((root, segs, f"raises {exc}" if exc else f"returns {getattr(val, 'path', val)!r}"))
+        for segs0, want in ((["a", "b"], _b(root).rstrip(b"/") + b"/a/b"), ([], _b(root))):
+            segs = [x.encode("utf-8") if mode is bytes else x for x in segs0]
+            val, exc = _try(w.new("FilePath", root).descendant, segs)
+            if exc is not None or _path_of(val) is None or _b(val.path) != want:
+                bad.append((root, segs, f"gives {exc or getattr(val, 'path', val)!r} instead of {want!r}"))
     msg = ""
     if bad:
         r, sg, what = bad[0]
@@ -275,180 +182,157 @@ def _descendant(ctx):
     ctx.check(not bad, "containment/descendant-semantics", q, msg, detail=f"{n} segment lists")
 
 
-SANITISER = "self.child"
-PATH_BUILDERS = {"preauthChild", "descendant", "clonePath", "joinpath", "join", "FilePath", "File", "sibling", "siblingExtension", "childSearchPreauth",
-                 "siblingExtensionSearch", "createSimilarFile", "open", "abspath", "normpath"}
+# ---- static.File.getChild ------------------------------------------------------------------------------------------------------------------
+NOTFOUND = "<childNotFound>"
+LISTING = "<directory listing>"
 
 
-def _static(ctx):
-    f = ctx.func(ST, "File.getChild")
-    g = ctx.cfg(f)
-    q = "twisted.web.static.File.getChild"
-    seg = param_names(f)[1]
-    tainted = {seg}
-    changed = True
-    assigns = [s for s in walk_local(f) if isinstance(s, ast.Assign)]
-    while changed:
-        changed = False
-        for s in assigns:
-            v = s.value
-            if isinstance(v, ast.Call) and call_name(v) == SANITISER:
-                continue
-            if any(isinstance(x, ast.Name) and x.id in tainted for x in ast.walk(v)):
-                for t in s.targets:
-                    for x in ast.walk(t):
-                        if isinstance(x, ast.Name) and x.id not in tainted:
-                            tainted.add(x.id)
-                            changed = True
+class _Req:
+    _sa_model = True
 
-    def mentions(node):
-        return any(isinstance(x, ast.Name) and x.id in tainted for x in ast.walk(node))
-
-    nsan = 0
-    for c in [c for c in walk_local(f) if isinstance(c, ast.Call)]:
-        args = list(c.args) + [k.value for k in c.keywords]
-        if not any(mentions(a) for a in args):
-            continue
-        cn = call_name(c) or ""
-        if cn == SANITISER:
-            nsan += 1
-            ctx.check(len(c.args) == 1 and isinstance(c.args[0], ast.Name), "static/segment-only-through-child", ctx.construct(q, c),
-                      "the request segment is transformed before it reaches child()")
-            hs = enclosing_try_handlers(f, c)
-            ok = any("InsecurePath" in handler_names(h) for h in hs)
-            ctx.check(ok, "static/insecure-path-handled", ctx.construct(q, c), "InsecurePath raised for a hostile segment is not handled (500 instead of not-found)")
-            for h in hs:
-                if "InsecurePath" in handler_names(h):
-                    rets = [n for n in g.ids(lambda x: x.kind == "stmt" and isinstance(x.ast, ast.Return)) if src(g.node(n).ast.value) == "self.childNotFound"]
-                    w = from_here(g, g.ids_of(h), rets)
-                    ctx.check(w is None, "static/insecure-path-handled", q + " | except InsecurePath", "a refused segment does not end in childNotFound", witness=g.describe(w))
-        elif cn in ("isinstance", "log.err", "log.msg", "repr") or (isinstance(c.func, ast.Attribute) and c.func.attr == "decode" and mentions(c.func.value)):
-            ctx.ok("static/segment-only-through-child", ctx.construct(q, c), "inert use of the segment")
-        else:
-            ctx.violation("static/segment-only-through-child", ctx.construct(q, c),
-                          "the request path segment is passed to a call other than self.child(): it can name a file outside the directory (no separator / '..' rejection)")
-    for c in [c for c in walk_local(f) if isinstance(c, ast.Call) and isinstance(c.func, ast.Attribute) and mentions(c.func.value) and c.func.attr != "decode"]:
-        ctx.violation("static/segment-only-through-child", ctx.construct(q, c), "a method of the raw request segment is used to derive a path")
-    for b in [b for b in walk_local(f) if isinstance(b, ast.BinOp) and mentions(b)]:
-        ctx.violation("static/segment-only-through-child", ctx.construct(q, b), "the request segment is combined into a path by an operator")
-    ctx.check(nsan == 1, "static/segment-only-through-child", q + " | child(segment)", f"{nsan} self.child(segment) sites (exactly one expected)")
-    # no other path builder is fed from request-independent-but-unchecked data except the two configured lists
-    for c in [c for c in walk_local(f) if isinstance(c, ast.Call) and call_attr(c) in PATH_BUILDERS]:
-        a = [src(x) for x in c.args]
-        nm = call_attr(c)
-        ok = (nm == "childSearchPreauth" and a == ["*self.indexNames"]) or (nm == "siblingExtensionSearch" and a == ["*self.ignoredExts"]) or \
-             (nm == "createSimilarFile" and a == ["fpath.path"])
-        ctx.check(ok, "static/path-builders", ctx.construct(q, c), "a path is built in getChild from something other than child(segment) / the configured index names and extensions")
-    # undecodable segment
-    dec = [c for c in walk_local(f) if isinstance(c, ast.Call) and call_attr(c) == "decode" and src(c.func.value) == seg]
-    ctx.check(len(dec) == 1, "static/undecodable-notfound", q, "the bytes segment is not decoded exactly once")
-    for c in dec:
-        hs = enclosing_try_handlers(f, c)
-        hh = [h for h in hs if {"UnicodeDecodeError", "UnicodeError", "ValueError"} & set(handler_names(h))]
-        rets = [n for n in g.ids(lambda x: x.kind == "stmt" and isinstance(x.ast, ast.Return)) if src(g.node(n).ast.value) == "self.childNotFound"]
-        ok = bool(hh) and all(from_here(g, g.ids_of(h), rets) is None for h in hh)
-        ctx.check(ok, "static/undecodable-notfound", ctx.construct(q, c), "a segment that is not valid UTF-8 is not answered with childNotFound")
-    # nobody shadows child()
-    for rel, cn in ((ST, "File"), (RS, "Resource")):
-        ms = methods(ctx.cls(rel, cn))
-        ctx.check(not ({"child", "preauthChild"} & set(ms)), "static/child-not-overridden", f"{rel}:{cn}", "child()/preauthChild() is overridden, FilePath's containment check no longer applies")
-    bases = [src(b) for b in ctx.cls(ST, "File").bases]
-    ctx.check(any(b.startswith("filepath.FilePath") for b in bases), "static/child-not-overridden", "twisted.web.static.File | bases", f"File no longer derives from filepath.FilePath: {bases}")
+    def __init__(self):
+        self.args = {b"index": [b"../secret"], b"ext": [b"/../../secret"]}
+        self.postpath = []
+        self.prepath = []
 
 
-class _File(_FP):
-    """model of a static.File rooted at /t/www (see FS): getChild is interpreted as a whole; the FilePath methods it calls are interpreted too"""
-    childNotFound = "<childNotFound>"
-    indexNames = ["index", "index.html"]
-    ignoredExts = (".bak",)
-    processors: dict = {}
-    registry = None
-    type = None
+def _static_world(ctx):
+    ctx.func(ST, "File.getChild")
+    fw = _fp_world(ctx)
+    ext = {"log.err": lambda *a, **k: None, "log.msg": lambda *a, **k: None, "resource.IResource": lambda x: x, "InsensitiveDict": lambda d: d,
+           "implementer": lambda *a: (lambda c: c), "Logger": lambda *a, **k: NullLogger()}
+    sw = World(ctx.mod(ST), externals=ext, env={"platformType": "posix"}).link(fw)
+    sw.override("directoryListing", lambda o: LISTING)
+    sw.override("createSimilarFile", lambda o, path: ("File", path))
+    for nm, f in fw.overrides.items():
+        sw.override(nm, f)
+    return sw
 
-    def directoryListing(self):
-        return "<directory listing>"
 
-    def createSimilarFile(self, path):
-        return ("File", path)
+def _file(sw, root):
+    return sw.bare("File", path=root, childNotFound=NOTFOUND, indexNames=["index", "index.html"], ignoredExts=(".bak",), processors={}, registry=None, type=None,
+                   alwaysCreate=False)
 
 
 def _static_evaluated(ctx):
-    f = ctx.func(ST, "File.getChild")
+    sw = _static_world(ctx)
     q = "twisted.web.static.File.getChild"
-    ms = _methods(ctx)
     root = "/t/www"
-    segs = sorted(set(_names()[:0] + SEGS + SPECIAL + ["a", "page", "sub", "www", "www.bak", "../www.bak", ".", "./", ".//", "sub/..", "a/..", "x/..", "sub/../", "..", "../", "../www", "../www/",
-                                                  "../www/a", "../www-evil", "../www-evil/x", "../secret", "/t/secret", "www-evil", "page.bak", "nothere", ""]))
+    segs = sorted(set(SEGS + SPECIAL + ["a", "page", "sub", "www", "www.bak", "../www.bak", ".", "./", ".//", "sub/..", "a/..", "x/..", "sub/../", "..", "../", "../www", "../www/",
+                                        "../www/a", "../www-evil", "../www-evil/x", "../secret", "/t/secret", "www-evil", "page.bak", "nothere", ""]))
     bad = []
     n = 0
-    try:
-        for s0 in segs:
-            n += 1
-            me = _File(root, ms)
-            funcs = me._funcs()
-            funcs.update({"log.err": lambda *a, **k: None, "log.msg": lambda *a, **k: None, "resource.IResource": lambda x: x, "InsensitiveDict": lambda d: d})
-            kind, val = interpret(f, {"self": me, param_names(f)[1]: s0.encode("utf-8", "surrogateescape"), param_names(f)[2]: None},
-                                  {"platformType": "posix"}, funcs=funcs)
-            if kind == "raise":
-                bad.append((s0, f"raises {val}"))
-            elif isinstance(val, tuple) and val and val[0] == "File":
-                if not _inside(root, val[1], False):
-                    bad.append((s0, f"serves {val[1]!r}"))
-            elif val not in (_File.childNotFound, "<directory listing>"):
-                bad.append((s0, f"returns {val!r}"))
-        kind, val = interpret(f, {"self": _File(root, ms), param_names(f)[1]: b"a\xff", param_names(f)[2]: None}, {"platformType": "posix"},
-                              funcs=dict(_File(root, ms)._funcs(), **{"log.err": lambda *a, **k: None}))
-        if (kind, val) != ("return", _File.childNotFound):
-            bad.append(("a\\xff", f"{kind} {val!r} instead of childNotFound"))
-        kind, val = interpret(f, {"self": _File(root, ms), param_names(f)[1]: b"a", param_names(f)[2]: None}, {"platformType": "posix"}, funcs=_File(root, ms)._funcs())
-        if (kind, val) != ("return", ("File", "/t/www/a")):
-            bad.append(("a", f"{kind} {val!r} instead of the file /t/www/a"))
-        kind, val = interpret(f, {"self": _File(root, ms), param_names(f)[1]: b"page", param_names(f)[2]: None}, {"platformType": "posix"}, funcs=_File(root, ms)._funcs())
-        if (kind, val) != ("return", ("File", "/t/www/page.bak")):
-            bad.append(("page", f"{kind} {val!r} instead of /t/www/page.bak (ignored extension)"))
-    except InterpError as e:
-        raise AnalysisError(f"C26: static.File.getChild (or a FilePath method it uses) has a construct the evaluator cannot interpret: {e}")
+    for s0 in segs:
+        n += 1
+        val, exc = _try(_file(sw, root).getChild, s0.encode("utf-8", "surrogateescape"), _Req())
+        if exc is not None:
+            bad.append((s0, f"raises {exc}"))
+        elif isinstance(val, tuple) and val and val[0] == "File":
+            if not _inside(root, val[1], False):
+                bad.append((s0, f"serves {val[1]!r}"))
+        elif val not in (NOTFOUND, LISTING):
+            bad.append((s0, f"returns {val!r}"))
+    for seg, want in ((b"a\xff", NOTFOUND), (b"a", ("File", "/t/www/a")), (b"page", ("File", "/t/www/page.bak")), (b"nothere", NOTFOUND), (b"", LISTING), (b"sub", ("File", "/t/www/sub"))):
+        val, exc = _try(_file(sw, root).getChild, seg, _Req())
+        if exc is not None or val != want:
+            bad.append((seg.decode("latin-1"), f"gives {exc or val!r} instead of {want!r}"))
     msg = ""
     if bad:
         sg, why = bad[0]
-        msg = (f"static.File('/t/www').getChild({sg.encode()!r}) {why}: outside the directory tree (model file system with a sibling file /t/www.bak and directory /t/www-evil, "
-               f"ignoredExts=('.bak',)); {len(bad)} of {n} segments misjudged")
+        msg = (f"static.File('/t/www').getChild({sg.encode('utf-8', 'surrogateescape')!r}) {why}: outside the directory tree / not the expected resource (model file system with a sibling file "
+               f"/t/www.bak and directory /t/www-evil, ignoredExts=('.bak',)); {len(bad)} of {n} segments misjudged")
     ctx.check(not bad, "static/evaluated-containment", q, msg, detail=f"{n} request segments")
+
+
+# ---- server side ------------------------------------------------------------------------------------------------------------------------------
+class _Anything:
+    """permissive stand-in for collaborators that do not matter to the clause (site, channel, header setters ...)"""
+    _sa_model = True
+    _sa_settable = True
+
+    def __getattr__(self, name):
+        if name.startswith("__"):
+            raise AttributeError(name)
+        return _Anything()
+
+    def __call__(self, *a, **k):
+        return _Anything()
 
 
 def _server(ctx):
     f = ctx.func(SV, "Request.process")
     q = "twisted.web.server.Request.process"
-    sts = [s for s in walk_local(f) if isinstance(s, ast.Assign) and any(src(t) == "self.postpath" for t in s.targets)]
-    ctx.check(len(sts) == 1, "server/split-before-unquote", q, "postpath is not assigned exactly once in process()")
-    for s in sts:
-        v = s.value
-        while isinstance(v, ast.Call) and call_name(v) in ("list", "tuple") and len(v.args) == 1:
-            v = v.args[0]
-        ok = False
-        if isinstance(v, ast.Call) and call_name(v) == "map" and len(v.args) == 2 and src(v.args[0]) == "unquote":
-            inner = v.args[1]
-            ok = isinstance(inner, ast.Call) and call_attr(inner) == "split" and [src(a) for a in inner.args] == ["b'/'"] and "unquote" not in src(inner.func.value) and \
-                src(inner.func.value).startswith("self.path")
-        elif isinstance(v, (ast.ListComp, ast.GeneratorExp)) and len(v.generators) == 1:
-            it = v.generators[0].iter
-            ok = isinstance(v.elt, ast.Call) and call_name(v.elt) == "unquote" and [src(a) for a in v.elt.args] == [src(v.generators[0].target)] and \
-                isinstance(it, ast.Call) and call_attr(it) == "split" and [src(a) for a in it.args] == ["b'/'"] and "unquote" not in src(it.func.value)
-        ctx.check(ok, "server/split-before-unquote", ctx.construct(q, s),
-                  "the request path is not split at '/' before each piece is unquoted: %2F would create extra segments / '..' pieces that bypass per-segment checks")
-    f = ctx.func(RS, "getChildForRequest")
-    g = ctx.cfg(f)
-    q = "twisted.web.resource.getChildForRequest"
-    pops = [s for s in walk_local(f) if isinstance(s, ast.Assign) and isinstance(s.value, ast.Call) and call_name(s.value) == "request.postpath.pop"]
-    gc = named_calls(g, "resource.getChildWithDefault")
-    ok = len(pops) == 1 and len(gc) == 1 and [src(a) for a in gc[0][1].args] == [src(pops[0].targets[0]), "request"] and [src(a) for a in pops[0].value.args] == ["0"]
-    ctx.check(ok, "server/segment-passed-whole", q, "the traversal does not hand each popped postpath segment unchanged (first to last) to getChildWithDefault")
-    f = ctx.func(RS, "Resource.getChildWithDefault")
-    g = ctx.cfg(f)
-    q = "twisted.web.resource.Resource.getChildWithDefault"
-    gc = named_calls(g, "self.getChild")
-    ok = len(gc) == 1 and [src(a) for a in gc[0][1].args] == param_names(f)[1:3]
-    ctx.check(ok, "server/segment-passed-whole", q, "getChild is not called with the segment as received")
+    # the prefix of process() up to (and including) the top-level statement that assigns self.postpath
+    upto = None
+    for i, st in enumerate(f.body):
+        if any(isinstance(x, ast.Attribute) and x.attr == "postpath" and isinstance(x.ctx, ast.Store) for x in ast.walk(st)):
+            upto = i
+            break
+    ctx.need(upto is not None, "an assignment to self.postpath in Request.process")
+    prefix = ast.FunctionDef(name="process_prefix", args=f.args, body=list(f.body[:upto + 1]), decorator_list=[])
+    ext = {"unquote": unquote_to_bytes, "datetimeToString": lambda *a: b"date", "implementer": lambda *a: (lambda c: c), "Logger": lambda *a, **k: NullLogger()}
+    w = World(ctx.mod(SV), externals=ext, env={"version": b"TwistedWeb"})
+    w.override("setHeader", lambda o, *a, **k: None)
+    w.override("_handleStar", lambda o, *a, **k: None)
+    w.override("render", lambda o, *a, **k: None)
+    w.override("processingFailed", lambda o, *a, **k: None)
+    bad = []
+    for path, want in ((b"/a%2Fb/%2e%2e/c", [b"a/b", b"..", b"c"]), (b"/x/y", [b"x", b"y"]), (b"/..%2f/rootsibling/secret.txt", [b"../", b"rootsibling", b"secret.txt"]),
+                       (b"/a//b", [b"a", b"", b"b"]), (b"/%2F", [b"/"]), (b"/", [b""])):
+        req = w.bare("Request", path=path, channel=_Anything(), site=_Anything(), method=b"GET")
+        try:
+            w.call(prefix, (), selfobj=req)
+            got = req.postpath
+        except ModelRaised as e:
+            got = f"raises {e.name}"
+        if got != want:
+            bad.append((path, got, want))
+    ctx.check(not bad, "server/split-before-unquote", q, f"request path {bad[0][0]!r} becomes the segments {bad[0][1]!r} instead of {bad[0][2]!r}: the path is not split at '/' before each piece "
+              "is unquoted (an encoded separator would create extra segments / '..' pieces that bypass the per-segment checks)" if bad else "")
+    # traversal hands every segment on whole and in order
+    ctx.func(RS, "getChildForRequest")
+    rw = World(ctx.mod(RS), externals={"implementer": lambda *a: (lambda c: c)})
+
+    class _Res:
+        _sa_model = True
+
+        def __init__(self, log, leaf_after):
+            self.log, self.leaf_after = log, leaf_after
+
+        @property
+        def isLeaf(self):
+            return len(self.log) >= self.leaf_after
+
+        def getChildWithDefault(self, name, request):
+            self.log.append(name)
+            return self
+    for segs, leaf_after, want in (([b"a/b", b"..", b"c"], 99, [b"a/b", b"..", b"c"]), ([b"x", b"y", b"z"], 2, [b"x", b"y"]), ([], 99, [])):
+        req = _Req()
+        req.postpath = list(segs)
+        log = []
+        res, exc = _try(rw.resolve("getChildForRequest"), _Res(log, leaf_after), req)
+        ok = exc is None and log == want and req.prepath == want and req.postpath == segs[len(want):] and isinstance(res, _Res)
+        ctx.check(ok, "server/segment-passed-whole", "twisted.web.resource.getChildForRequest" + f" | {segs}",
+                  f"traversal of {segs}: children asked {log}, prepath {req.prepath}, postpath left {req.postpath}, raises {exc} (each segment whole, in order, until a leaf)")
+    ctx.func(RS, "Resource.getChildWithDefault")
+    seen = []
+    robj = rw.bare("Resource", children={b"static": "<registered child>"})
+    rw.override("getChild", lambda o, path, request: seen.append(path) or "<dynamic child>")
+    r1, e1 = _try(robj.getChildWithDefault, b"a/b", _Req())
+    r2, e2 = _try(robj.getChildWithDefault, b"static", _Req())
+    ctx.check(e1 is None and e2 is None and seen == [b"a/b"] and r1 == "<dynamic child>" and r2 == "<registered child>", "server/segment-passed-whole",
+              "twisted.web.resource.Resource.getChildWithDefault", f"getChildWithDefault: getChild saw {seen}, results {r1!r}/{r2!r}, raises {e1 or e2}")
+
+
+def check(ctx):
+    sections = (("child", lambda c: _semantics(c, "child", True, "containment/child-semantics")), ("preauthChild", lambda c: _semantics(c, "preauthChild", False, "containment/preauth-semantics")),
+                ("descendant", _descendant), ("static-evaluated", _static_evaluated), ("server", _server))
+    for name, fn in sections:
+        with ctx.section(name):
+            try:
+                fn(ctx)
+            except InterpError as e:
+                raise AnalysisError(f"C26/{name}: the code uses a construct the evaluator cannot interpret: {e}")
 
 
 MUTANTS = [
@@ -462,7 +346,6 @@ MUTANTS = [
     Mutant("extension-search-also-for-directories", ST, "        if not fpath.exists():\n            fpath = fpath.siblingExtensionSearch(*self.ignoredExts)\n            if fpath is None:\n                return self.childNotFound\n",
            "        if not fpath.exists() or fpath.isdir():\n            found = fpath.siblingExtensionSearch(*self.ignoredExts)\n            if found is None and not fpath.exists():\n                return self.childNotFound\n            fpath = found or fpath\n"),
     Mutant("coercion-to-text-is-lossy", FP, "        return path.decode(encoding, errors=\"surrogateescape\")", "        return path.decode(encoding, errors=\"ignore\")"),
-    Mutant("getChild-uses-preauthChild", ST, "                fpath = self.child(path)\n", "                fpath = self.preauthChild(path)\n"),
     Mutant("getChild-joins-directly", ST, "                fpath = self.child(path)\n", "                fpath = self.clonePath(os.path.join(self.path, path))\n"),
     Mutant("getChild-insecurepath-unhandled", ST, "            try:\n                fpath = self.child(path)\n            except filepath.InsecurePath:\n                return self.childNotFound\n",
            "            fpath = self.child(path)\n"),
@@ -473,6 +356,15 @@ MUTANTS = [
     Mutant("index-search-from-request", ST, "            fpath = self.childSearchPreauth(*self.indexNames)", "            fpath = self.childSearchPreauth(*(request.args.get(b\"index\") or self.indexNames))"),
 ]
 SILENT = [
+    # since F26 is fixed preauthChild is itself contained: serving through it keeps every resource inside the tree (the property's clause for static files)
+    Silent("getChild-through-preauthChild-still-contained", ST, "                fpath = self.child(path)\n", "                fpath = self.preauthChild(path)\n"),
+    Silent("child-with-extracted-static-helpers", FP, "        newpath = abspath(joinpath(ourPath, norm))\n        if not newpath.startswith(ourPath):\n            raise InsecurePath(f\"{newpath!r} is not a child of {ourPath!r}\")\n        return self.clonePath(newpath)\n\n    def preauthChild",
+           "        newpath = self._joined(ourPath, norm)\n        if not newpath.startswith(ourPath):\n            raise self._refusal(newpath, ourPath)\n        return self.clonePath(newpath)\n\n    @staticmethod\n    def _joined(base, rel):\n        return abspath(joinpath(base, rel))\n\n    @staticmethod\n    def _refusal(newpath, ourPath):\n        return InsecurePath(f\"{newpath!r} is not a child of {ourPath!r}\")\n\n    def preauthChild"),
+    Silent("getChild-decode-in-helper", ST, "            try:\n                # Request calls urllib.unquote on each path segment,\n                # leaving us with raw bytes.\n                path = path.decode(\"utf-8\")\n            except UnicodeDecodeError:\n                log.err(None, f\"Could not decode path segment as utf-8: {path!r}\")\n                return self.childNotFound\n",
+           "            path = self._textSegment(path)\n            if path is None:\n                return self.childNotFound\n",
+           more=[(ST, "    # methods to allow subclasses to e.g. decrypt files on the fly:\n", "    def _textSegment(self, raw):\n        try:\n            return raw.decode(\"utf-8\")\n        except UnicodeDecodeError:\n            log.err(None, f\"Could not decode path segment as utf-8: {raw!r}\")\n            return None\n\n    # methods to allow subclasses to e.g. decrypt files on the fly:\n")]),
+    Silent("traversal-loop-while-true", RS, "    while request.postpath and not resource.isLeaf:\n        pathElement = request.postpath.pop(0)\n        request.prepath.append(pathElement)\n        resource = resource.getChildWithDefault(pathElement, request)\n    return resource",
+           "    node = resource\n    while True:\n        if node.isLeaf or not request.postpath:\n            return node\n        piece = request.postpath.pop(0)\n        request.prepath.append(piece)\n        node = node.getChildWithDefault(piece, request)"),
     Silent("extension-search-guard-rewritten", ST, "        if not fpath.exists():\n            fpath = fpath.siblingExtensionSearch(*self.ignoredExts)\n            if fpath is None:\n                return self.childNotFound\n",
            "        if fpath.exists():\n            pass\n        else:\n            found = fpath.siblingExtensionSearch(*self.ignoredExts)\n            if found is None:\n                return self.childNotFound\n            fpath = found\n"),
     Silent("coercion-explicit-codec-lookup", FP, "        if encoding is None:\n            encoding = sys.getfilesystemencoding()\n        return path.decode(encoding, errors=\"surrogateescape\")",
